@@ -7,6 +7,8 @@ Round-robin : line-ups of 1-6 sampler objects (six distinct class names, repeate
 RL          : sampler sets with and without Halton, every scripted action sequence of length <= 3, eps-greedy agents,
               1-2 sessions, loss scripts incl. a best loss of exactly 0: first batch by Halton (member, else appended
               last), later batches by samplers[action], in every interleaving (modulo commutation of independent steps).
+              Further histories replace the line-up in mid-calibration (Calibrator.set_samplers with a longer / shorter list, on a
+              live or restored object): batch i then comes from sampler i mod n of the list in force.
 Constructor : all four samplers/scheduler presence combinations.
 """
 from __future__ import annotations
@@ -26,10 +28,12 @@ NAMES6 = ["Halton", "RandomUniform", "RSequence", "HaltonB", "RandomUniformB", "
 
 
 def run_history(cfg, ops):
-    """ops over 'c1','c2','r'. Returns violations [(key, what)] and a signature."""
+    """ops over 'c1','c2','r' and 's<k>' (Calibrator.set_samplers with cfg['alt_lineups'][k]: from then on batch i is produced by
+    sampler i mod n of the list in force). Returns violations [(key, what)] and a signature."""
     v = []
     lineup = cfg["lineup"]
-    n = len(lineup)
+    in_force, saved = lineup, lineup   # the list the live object holds / the list inside the last checkpoint
+    per_batch = []
     with C.scratch() as folder:
         cfg2 = dict(cfg, saving_folder=str(folder / "ckpt"))
         cal = C.build(cfg2)
@@ -40,16 +44,27 @@ def run_history(cfg, ops):
                     if cal.current_batch_index == 0:
                         continue
                     cal = C.restore(folder / "ckpt", cfg2)
+                    in_force = saved
+                    del per_batch[cal.current_batch_index:]
+                elif op[0] == "s":
+                    in_force = cfg["alt_lineups"][int(op[1])]
+                    cal.set_samplers([C.make_sampler(s_) for s_ in in_force])
                 else:
-                    with quiet():
-                        cal.calibrate(int(op[1]))
+                    try:
+                        with quiet():
+                            cal.calibrate(int(op[1]))
+                    except Exception as e:  # noqa: BLE001
+                        return [("rr-calibrate-raises", f"ops={ops}: calibrate({op[1]}) raised {type(e).__name__}: {e}")], None
+                    per_batch += [in_force] * int(op[1])
+                    saved = in_force
         nb = cal.current_batch_index
-        if len(rec.sched_calls) != nb or len(rec.sample_calls) != nb:
+        if len(rec.sched_calls) != nb or len(rec.sample_calls) != nb or len(per_batch) != nb:
             v.append(("rr-call-count", f"{nb} batches, {len(rec.sched_calls)} designations, {len(rec.sample_calls)} sample() calls"))
             return v, None
         for i in range(nb):
             d, s = rec.sched_calls[i], rec.sample_calls[i]
-            exp = lineup[i % n]
+            n = len(per_batch[i])
+            exp = per_batch[i][i % n]
             if d["index"] != i % n:
                 v.append(("rr-wrong-sampler", f"ops={ops}: lifetime batch {i} was produced by sampler #{d['index']} ({d['cls']}), round-robin prescribes #{i % n} ({exp['cls']})"))
                 break
@@ -61,6 +76,8 @@ def run_history(cfg, ops):
                 v.append(("rr-batch-size", f"ops={ops}: batch {i} contributed {rows} rows, sampler #{i % n} has batch_size {exp['bs']}"))
                 break
             ids = set(cal.method_samp[cal.batch_num_samp == i].tolist())
+            if any(o[0] == "s" for o in ops):
+                continue   # with a replaced line-up a restored object rebuilds its id table from the list in force (C18's known finding): labels are C18's subject
             if ids != {cal.samplers_id_table[C.sampler_class(exp["cls"]).__name__]}:
                 v.append(("rr-label", f"ops={ops}: batch {i} labelled {ids}, sampler class {exp['cls']} has id {cal.samplers_id_table[C.sampler_class(exp['cls']).__name__]}"))
                 break
@@ -200,6 +217,14 @@ def main(ctx):
             hs = hist if (ctx.quick and n in (2, 3, 5)) or not ctx.quick else hist[:: 3]
             for k in range(0, len(hs), 12):
                 cells.append({"kind": "rr", "cfg": {"lineup": lineup, "seed": S, "dims": 2, "model": "const2", "ensemble": 1}, "histories": hs[k:k + 12]})
+    # the line-up replaced in mid-calibration (set_samplers) by a longer / shorter one, on a live or a restored object
+    base = [{"cls": "Halton", "bs": 1}, {"cls": "RandomUniform", "bs": 2}]
+    alts = [[{"cls": "RSequence", "bs": 3}, {"cls": "HaltonB", "bs": 1}, {"cls": "RandomUniformB", "bs": 2}], [{"cls": "RSequenceB", "bs": 2}],
+            [{"cls": "RandomUniform", "bs": 1}, {"cls": "Halton", "bs": 3}, {"cls": "Halton", "bs": 2}, {"cls": "RSequence", "bs": 1}]]
+    sh = [list(h) for L_ in range(2, (5 if ctx.quick else 6) + 1) for h in itertools.product(("c1", "c2", "r", "s0", "s1", "s2"), repeat=L_)
+          if h[0][0] == "c" and h[-1][0] == "c" and sum(o[0] == "s" for o in h) in (1, 2) and not any(a[0] == "s" and b[0] == "s" for a, b in zip(h, h[1:]))]
+    for k in range(0, len(sh), 40):
+        cells.append({"kind": "rr", "cfg": {"lineup": base, "alt_lineups": alts, "seed": S, "dims": 2, "model": "const2", "ensemble": 1}, "histories": sh[k:k + 40]})
     eight = [{"cls": NAMES6[i % 6], "bs": 1 + i % 3} for i in range(8)]
     cells.append({"kind": "rr", "cfg": {"lineup": eight, "seed": S, "dims": 2, "model": "const2", "ensemble": 1}, "histories": [["c2"] * 10, ["c1", "c2", "r", "c2", "c2", "r", "c1", "c2", "c2", "c2", "r", "c2", "c2"], ["c2", "c2", "c2", "r"] + ["c1"] * 11]})
     shapes = [[1], [2], [3], [1, 2], [2, 2]] if ctx.quick else [[1], [2], [3], [1, 1], [1, 2], [2, 1], [2, 2], [3, 3], [1, 1, 2]]
